@@ -5,7 +5,7 @@ package main
 // which keeps ONE session cache across the whole history; HttpsListener.UpdateSessionTicketKey (Config.Clone + new key +
 // bfe_tls.UpdateListener) replaces the key between — or in the middle of — connections.
 //
-//	kr <cfg:13> <script>      script items, `,`-separated:
+//	kr <cfg:13> <cmax> <script>      cmax = the client's MaxVersion (its MinVersion is TLS1.0); script items, `,`-separated:
 //	   C        connect, accept, handshake
 //	   A        connect and Accept only (the server side is created with the configuration of THIS moment)
 //	   H        complete the handshake of the connection accepted by the last A
@@ -54,11 +54,15 @@ func krKey(i int) []byte {
 }
 
 func execKr(f []string) string {
-	if len(f) != 15 {
+	if len(f) != 16 {
 		return "bad-op"
 	}
 	var k x.Kase
 	if !x.ParseCfg(f[1:14], &k) {
+		return "bad-op"
+	}
+	cmax, perr := strconv.ParseUint(f[14], 16, 16)
+	if perr != nil {
 		return "bad-op"
 	}
 	rsaCert, ecCert, err := x.ServerCerts()
@@ -75,7 +79,7 @@ func execKr(f []string) string {
 	inner := &chanListener{ch: make(chan net.Conn, 4)}
 	hl := bfe_server.NewHttpsListener(inner, cfg)
 	ln := bfe_server.VerifC44TLSListener(hl)
-	ccfg := &tls.Config{InsecureSkipVerify: true, ServerName: "verif.test", MinVersion: tls.VersionTLS10, MaxVersion: tls.VersionTLS12,
+	ccfg := &tls.Config{InsecureSkipVerify: true, ServerName: "verif.test", MinVersion: tls.VersionTLS10, MaxVersion: uint16(cmax),
 		ClientSessionCache: tls.NewLRUClientSessionCache(1), NextProtos: []string{"h2", "http/1.1"},
 		CipherSuites: []uint16{0xcca8, 0xcca9, 0xc02f, 0xc02b, 0xc013, 0xc009, 0x002f, 0xc011, 0x0005}}
 	type pending struct {
@@ -149,7 +153,7 @@ func execKr(f []string) string {
 		return fmt.Sprintf("%s | srv=ok v=%s s=%s al=%s r=%s", helloStr, x.Hex4(s.st.Version), x.Hex4(s.st.CipherSuite), al, x.B01(s.st.DidResume))
 	}
 	var out []string
-	for _, it := range strings.Split(f[14], ",") {
+	for _, it := range strings.Split(f[15], ",") {
 		switch {
 		case it == "C":
 			out = append(out, handshake(accept()))
@@ -228,8 +232,8 @@ func genKr(r *vh.Rand) string {
 	if pending {
 		sc = append(sc, "H")
 	}
-	if sc[0] != "C" {
+	if len(sc) == 0 || sc[0] != "C" {
 		sc = append([]string{"C"}, sc...)
 	}
-	return "kr " + k.CfgFields() + " " + strings.Join(sc, ",")
+	return "kr " + k.CfgFields() + " " + r.Pick("0303", "0303", "0302", "0301") + " " + strings.Join(sc, ",")
 }
